@@ -160,6 +160,11 @@ def _work(arg):
     agg = Agg()
     try:
         cases = []
+        # random generators may draw the same descriptor twice; running it twice adds nothing
+        try:
+            descs = list(dict.fromkeys(descs))
+        except TypeError:
+            descs = list({repr(d): d for d in descs}.values())
         for d in descs:
             c = chk.build(d)
             if c is not None:
